@@ -319,7 +319,7 @@ def main(argv):
     # ================= paired problems through the real solver
     work = vlib.workdir("C19")
     try:
-        npair = 3 if ck.tier == "quick" else 24
+        npair = 5 if ck.tier == "quick" else 27
         for t in range(npair):
             p = gen.gen_rects("m", rng, units=rng.choice(["centimeters", "millimeters", "inches"]))
             p.smartmesh = 0
@@ -337,7 +337,13 @@ def main(argv):
             # laminated linear material gives (the table is rescaled to the iron / air mixture in GetSlopes for in-plane
             # laminations, the on-edge types are combined by the solver)
             # (every run has in-plane laminated pairs: pair 0, 2, 4, ... ; on-edge ones: 1, 5, ... ; unlaminated: 3, 7, ...)
-            lt = [0, rng.choice([1, 2]), 0, None][t % 4]
+            # (in-plane laminated: pairs 0, 2, 5; laminated on edge in either direction: 1, 4, 6, 8; unlaminated: 3, 7; of every nine
+            #  pairs three are axisymmetric: the axisymmetric solver has its own copy of the nonlinear lamination formulas)
+            lt = [0, 2, 0, None, 1, 0, 1, None, 2][t % 9]
+            rng.choice([1, 2])          # (keeps the random stream of the earlier schedule)
+            if t % 9 in (1, 5, 6):
+                p.ptype = "axi"
+                stats["paired_axisymmetric"] = stats.get("paired_axisymmetric", 0) + 1
             for m in p.blockprops:
                 if m["Mu_x"] > 1.0 and lt is not None:
                     m["LamType"] = lt
